@@ -76,7 +76,9 @@ def asmatrix_unit(ctx, unit):
     import numpy as np
     cfg = unit['cfg']
     name = gen.cfg_str(cfg)
-    alg = gen.make_algebra(cfg)
+    alg = gen.make_or_skip(ctx, cfg)
+    if alg is None:
+        return
     rng = ctx.rng
     d = alg.d
     n = 2 ** d
@@ -201,7 +203,9 @@ def expr_unit(ctx, unit):
     from kingdon import expr_as_matrix
     cfg = unit['cfg']
     name = gen.cfg_str(cfg)
-    alg = gen.make_algebra(cfg)
+    alg = gen.make_or_skip(ctx, cfg)
+    if alg is None:
+        return
     rng = ctx.rng
     f = EXPRS[unit['expr']]
     canon = tuple(alg.canon2bin.values())
